@@ -40,6 +40,8 @@ pub fn materialize(spec: &str) -> Option<Vec<u8>> {
     crate::gen::materialize(spec)
 }
 
+pub const FEATURE_NAMES: [&str; 12] = ["mutable-global", "sat-float-to-int", "sign-extension", "multi-value", "reference-types", "bulk-memory", "simd", "relaxed-simd", "tail-call", "multi-memory", "memory64", "threads"];
+
 fn disk_corpus(include_invalid: bool) -> Vec<String> {
     let mut v = corpus::regress_specs();
     v.extend(corpus::fixture_specs(include_invalid));
@@ -55,18 +57,41 @@ fn with_scenario(specs: Vec<String>, scenario: &str) -> Vec<CaseDesc> {
 pub fn cases(prop: &str, tier: Tier, seed: u64) -> Vec<CaseDesc> {
     let q = tier == Tier::Quick;
     let mut out = Vec::new();
-    let _ = (q, seed);
+    let g = |profile: &str, n_quick: u64, n_thorough: u64| -> Vec<String> { crate::gen::gen_specs(profile, seed, if q { n_quick } else { n_thorough }) };
     match prop {
         "C02" => {
-            out.extend(with_scenario(disk_corpus(false), "rt:emit,gc,cfgs"));
+            out.extend(with_scenario(disk_corpus(false), "rt:emit,gc"));
+            for (p, nq, nt) in [("full", 3000, 150_000), ("mvp", 800, 30_000), ("stable", 800, 30_000), ("gcgraph", 1500, 60_000), ("names", 600, 20_000), ("customs", 600, 20_000)] {
+                out.extend(with_scenario(g(p, nq, nt), "rt:emit,gc"));
+            }
+            // configurations: names/producers off
+            out.extend(with_scenario(g("names", 300, 10_000), "rt:emit,gc;cfg=8"));
+            out.extend(with_scenario(g("customs", 300, 10_000), "rt:emit,gc;cfg=10"));
+            out.extend(with_scenario(g("stable", 300, 10_000), "rt:emit,gc;cfg=58"));
         }
         "C08" => {
             out.extend(with_scenario(disk_corpus(false), "rt:emit,emit2,fix,shift"));
+            for (p, nq, nt) in [("full", 1500, 80_000), ("customs", 800, 30_000), ("names", 800, 30_000), ("gcgraph", 500, 20_000)] {
+                let specs = g(p, nq, nt);
+                for (i, s) in specs.into_iter().enumerate() {
+                    out.push(CaseDesc { spec: s, scenario: format!("rt:emit,emit2,fix,shift;shift={}", 1 + (i % 7)) });
+                }
+            }
         }
         "C12" => {
             out.extend(with_scenario(disk_corpus(false), "rt:emit,emit2,gc"));
+            out.extend(with_scenario(g("customs", 4000, 150_000), "rt:emit,emit2,gc"));
         }
-        "C20" | "C03" | "C04" | "C01" => {
+        "C20" => {
+            out.extend(with_scenario(disk_corpus(false), "rt:emit"));
+            for (p, nq, nt) in [("mvp", 1200, 40_000), ("full", 600, 20_000), ("stable", 400, 20_000)] {
+                out.extend(with_scenario(g(p, nq, nt), "rt:emit"));
+            }
+            for (name, _) in FEATURE_NAMES.iter().map(|n| (n, ())) {
+                out.extend(with_scenario(g(&format!("feature-{}", name), 250, 8_000), "rt:emit"));
+            }
+        }
+        "C03" | "C04" | "C01" => {
             out.extend(with_scenario(disk_corpus(false), "rt:emit"));
         }
         _ => {}
